@@ -177,6 +177,36 @@ impl Discv5 {
         Ok(())
     }
 
+    /// Verification hook: starts the real `Service` with a scripted handler. The caller receives
+    /// every `HandlerIn` the service emits and injects `HandlerOut` events (and learns through the
+    /// last channel when the service asks the handler to exit).
+    #[cfg(discv5_verif)]
+    #[allow(clippy::type_complexity)]
+    pub fn verif_start_scripted(
+        &mut self,
+    ) -> Result<
+        (
+            mpsc::UnboundedReceiver<crate::handler::HandlerIn>,
+            mpsc::Sender<crate::handler::HandlerOut>,
+            oneshot::Receiver<()>,
+        ),
+        Error,
+    > {
+        if self.service_channel.is_some() {
+            return Err(Error::ServiceAlreadyStarted);
+        }
+        let (service_exit, service_channel, handler_in, handler_out, handler_exit) =
+            Service::verif_spawn(
+                self.local_enr.clone(),
+                self.enr_key.clone(),
+                self.kbuckets.clone(),
+                self.config.clone(),
+            );
+        self.service_exit = Some(service_exit);
+        self.service_channel = Some(service_channel);
+        Ok((handler_in, handler_out, handler_exit))
+    }
+
     /// Terminates the service.
     pub fn shutdown(&mut self) {
         if let Some(exit) = self.service_exit.take() {
